@@ -109,12 +109,15 @@ def _valid_job(job):
     shapes = (set, list, tuple, frozenset)
     for ei, exc in enumerate([None] + SETS):
         exp = exp_inc - (catref.closure(exc) if exc else frozenset())
-        kw = {}
-        if inc is not None:
-            kw['include'] = _tc(inc)
-        if exc is not None:
-            kw['exclude'] = _tc(exc)
-        r = _call(TC.valid, **kw)
+        def fresh(shape=set):
+            # fresh argument objects for every call: a callee that modifies its arguments must not confuse the harness (C14 reports such a callee)
+            kw_ = {}
+            if inc is not None:
+                kw_['include'] = shape(sorted(_tc(inc))) if shape is not set else _tc(inc)
+            if exc is not None:
+                kw_['exclude'] = shape(sorted(_tc(exc))) if shape is not set else _tc(exc)
+            return kw_
+        r = _call(TC.valid, **fresh())
         acc.count('transitions')
         acc.count('evaluations')
         acc.state(('valid', inc, exc))
@@ -128,8 +131,7 @@ def _valid_job(job):
         # the mapper facade and other argument containers: on a rotating quarter of the grid (quick) / all (thorough)
         if tier == 'thorough' or (ii + ei) % 4 == 0:
             for shape in (list, tuple):
-                kw2 = {k: shape(sorted(v)) for k, v in kw.items()}
-                r2 = _call(HM.valid, **kw2)
+                r2 = _call(HM.valid, **fresh(shape))
                 acc.count('transitions')
                 got2 = _names(r2[1]) if r2[0] == 'ok' else r2
                 if got2 != exp:
@@ -138,7 +140,7 @@ def _valid_job(job):
                                        sorted(exp), sorted(got2) if isinstance(got2, frozenset) else got2))
             # bare single value arguments
             if (inc is None or len(inc) == 1) and (exc is None or len(exc) == 1):
-                kw3 = {k: next(iter(v)) for k, v in kw.items()}
+                kw3 = {k: next(iter(v)) for k, v in fresh().items()}
                 r3 = _call(TC.valid, **kw3)
                 acc.count('transitions')
                 got3 = _names(r3[1]) if r3[0] == 'ok' else r3
@@ -150,7 +152,7 @@ def _valid_job(job):
             if tier == 'thorough' or exc is None or len(exc) <= 1 or (ii + ei) % 8 == 0:
                 for c in NAMES:
                     expm = bool(catref.DESC[c] & exp)
-                    rm = _call(TC.match, TC[c], **kw)
+                    rm = _call(TC.match, TC[c], **fresh())
                     acc.count('transitions')
                     acc.count('evaluations')
                     gotm = bool(rm[1]) if rm[0] == 'ok' else rm
@@ -158,7 +160,7 @@ def _valid_job(job):
                         acc.violation(Viol('match', 'differs-from-documented-tree',
                                            {'q': 'match', 'target': c, 'include': inc, 'exclude': exc}, expm, gotm))
                     if (ii + ei) % 16 == 0:
-                        rm2 = _call(HM.match, TC[c], **{k: list(v) for k, v in kw.items()})
+                        rm2 = _call(HM.match, TC[c], **fresh(list))
                         acc.count('transitions')
                         g2 = bool(rm2[1]) if rm2[0] == 'ok' else rm2
                         if g2 != expm:
